@@ -202,9 +202,9 @@ static bool post_stamps_ok(qtreetbl_obj_t *n, uchar ttid, int depth) {
 static void INV_tree(struct tstate *s, size_t want_num) {
     qtreetbl_t *t = s->t;
     QV_ASSERT(post_stamps_ok(t->root, t->tid, PD), "C03: INV_T no node carries a traversal stamp newer than the table's");
-    QV_ASSERT(t->root == NULL || !t->root->red, "C02: root is black");
-    QV_ASSERT(post_valid(t->root, -1, 256, false, PD) >= 0, "C02: keys in search order, no red node with a red child, equal black height on every path, no lone right-leaning red");
-    QV_ASSERT(t->num == want_num && post_count(t->root, PD) == want_num, "C01: size equals the number of distinct keys");
+    QV_ASSERT(t->root == NULL || !t->root->red, "C02,C15: root is black");
+    QV_ASSERT(post_valid(t->root, -1, 256, false, PD) >= 0, "C02,C15: keys in search order, no red node with a red child, equal black height on every path, no lone right-leaning red");
+    QV_ASSERT(t->num == want_num && post_count(t->root, PD) == want_num, "C01,C15: size equals the number of distinct keys");
     QV_ASSERT(t->compare == gh_cmp, "C01: ordering untouched");
 }
 
